@@ -13,7 +13,7 @@ PROP = dict(
         #     acyclic => textual inclusion
         dict(module="ImportGraph", cfg=dict(quick="ImportGraph_quick.cfg", thorough="ImportGraph_thorough.cfg"), emit=True, workers=8,
              coverage=True, timeout=dict(quick=300, thorough=900)),
-        dict(module="ImportGraph2", cfg=dict(thorough="ImportGraph2_thorough.cfg"), emit=True, workers=8, timeout=dict(thorough=900)),
+        dict(module="ImportGraph2", cfg=dict(quick="ImportGraph2_quick.cfg", thorough="ImportGraph2_thorough.cfg"), emit=True, workers=8, timeout=dict(quick=300, thorough=900)),
         # (3) the input space of Parse: every token-kind string up to N tokens (oracle-free totality + layout invariance)
         dict(module="ParserTotal", cfg=dict(quick="ParserTotal_quick.cfg", thorough="ParserTotal_thorough.cfg"), emit=True, workers=8,
              timeout=dict(quick=300, thorough=1200)),
